@@ -6,6 +6,7 @@ CONSTANTS
   OptLen = 0
   MaxCodons = 0
   PairCodons = 0
+  OrfFamily = FALSE
   LongLens = {765, 768, 770, 771}
   SymLen = 0
 INVARIANT TypeOK
@@ -16,5 +17,6 @@ INVARIANT EncodeResolveInverse
 INVARIANT SixFrameLaw
 INVARIANT AnticodonFrameLaw
 INVARIANT StopLaws
+INVARIANT UniqueFrameFamily
 INVARIANT LongLaw
 INVARIANT CodonLaw
